@@ -21,6 +21,8 @@ Well-formedness is what the statement says: critical points ordered by abscissa,
 point [x,y],[x,y] and a depth without points (the zero function) are allowed; before the output goes to the Lean checker
 (whose `wellFormed` wants strictly increasing abscissae) this free part of the representation is removed (`normalise`).
 """
+import contextlib
+import io
 import math
 import signal
 from fractions import Fraction
@@ -52,7 +54,9 @@ RULE = ("diagrams from one PRNG: 0-9 bars (quick) / 0-40 (thorough), plus a stre
         "an earlier bar), coordinates lattice/half/dyadic (scales 2^-20..2^20; float arithmetic exact, certified with "
         "eps=0) or decimal/uniform (certified with eps=1e-9*largest |coordinate|, no floor; 15% rescaled by 2^-20, 2^20, 1e-6, "
         "1e6, 3e-4 or 7e3), random input order, 1-3 diagrams with hom_deg "
-        "selecting one, trailing infinite bar with prob 0.3; non-trivial = at least 2 bars; distinct by digest of "
+        "selecting one, trailing infinite bar with prob 0.3; 15 of 18 landscapes computed on construction, the others built with "
+        "compute=False and computed by compute_landscape() / compute_landscape(verbose=True) / after a compute_landscape_by_depth(k) "
+        "query whose own outcome is not judged; non-trivial = at least 2 bars; distinct by digest of "
         "(hom_deg, diagrams)")
 ASSUMPTIONS = [
     "np.interp of the critical pairs is the linear interpolation evalPL (base of the property's 'interpolated linearly')",
@@ -382,7 +386,39 @@ def _alarm(signum, frame):
     raise Hang()
 
 
-def run_code(dgms, hom_deg, dtype=float):
+def route_of(idx):
+    """how the landscape of the idx-th case of the main stream is obtained (a fixed schedule, no random draw): on construction
+    (15 of 18), or from an object built with compute=False by one of the public calls that compute it -
+    `compute_landscape()`, `compute_landscape(verbose=True)` (progress messages on stdout, discarded), or a query
+    `compute_landscape_by_depth(k)` followed by `compute_landscape()`.  `critical_pairs` is read afterwards in every case: it is
+    the same landscape whichever public call computed it, and whatever was asked of the object before.
+    -> (route, k)"""
+    return {4: ("lazy_verbose", 0), 10: ("lazy", 0), 7: ("lazy_by_depth", 0), 16: ("lazy_by_depth", 1)}.get(idx % 18, ("eager", 0))
+
+
+def _build(mod, dgms, hom_deg, route, depth, trace):
+    if route in (None, "eager"):
+        return mod.PersLandscapeExact(dgms=dgms, hom_deg=hom_deg)
+    P = mod.PersLandscapeExact(dgms=dgms, hom_deg=hom_deg, compute=False)
+    with contextlib.redirect_stdout(io.StringIO()):
+        if route == "lazy_verbose":
+            P.compute_landscape(verbose=True)
+            return P
+        if route == "lazy_by_depth":
+            # the answer of the query is NOT judged here (the present code computes the whole landscape and then raises
+            # TypeError, because compute_landscape returns None; a depth beyond the last one has no function to return):
+            # whether it answers or raises, the object must afterwards still represent the landscape of its diagram
+            try:
+                P.compute_landscape_by_depth(depth)
+            except Exception:
+                pass
+            if not P.critical_pairs:
+                del trace[:]                      # nothing stored: the next call runs the sweep (again); count that one
+        P.compute_landscape()
+    return P
+
+
+def run_code(dgms, hom_deg, dtype=float, route="eager", depth=0):
     """-> (status, critical pairs as lists of [x,y] floats | error kind, number of shortcut firings);
     status 'hang' when the sweep does not terminate (a rewritten loop can spin forever while its list grows)"""
     mod = common.pm("landscapes.exact")
@@ -400,7 +436,7 @@ def run_code(dgms, hom_deg, dtype=float):
         try:
             try:
                 with np.errstate(all="ignore"):
-                    st, v, _ = call(mod.PersLandscapeExact, dgms=[arr(D, dtype) for D in dgms], hom_deg=hom_deg)
+                    st, v, _ = call(_build, mod, [arr(D, dtype) for D in dgms], hom_deg, route, depth, trace)
             finally:
                 signal.setitimer(signal.ITIMER_REAL, 0)
         except Hang:
@@ -484,11 +520,13 @@ def run(ctx):
     cov = common.LineCov(["persim/landscapes/exact.py"])
     rows, lines = [], []
     for i, c in enumerate(cases):
+        c["route"], c["depth"] = route_of(i)
+        ctx.count("route:" + c["route"])
         if i < 400:
             with cov:
-                st, out, fired = run_code(c["dgms"], c["hom_deg"], c.get("dtype", float))
+                st, out, fired = run_code(c["dgms"], c["hom_deg"], c.get("dtype", float), c["route"], c["depth"])
         else:
-            st, out, fired = run_code(c["dgms"], c["hom_deg"], c.get("dtype", float))
+            st, out, fired = run_code(c["dgms"], c["hom_deg"], c.get("dtype", float), c["route"], c["depth"])
         bars = selected_bars(c)
         exact_mode = c["mode"] in EXACT_MODES
         eps = 0.0 if exact_mode else 1e-9 * scale_of(bars)
@@ -520,7 +558,8 @@ def run(ctx):
             ctx.count("rounding_edge_certified_via_model")
             cert = [True]
         cls = classify(bars)
-        rcase = {"dgms": c["dgms"], "hom_deg": c["hom_deg"], "dtype": c.get("dtype", "float64"), "eps": eps}
+        rcase = {"dgms": c["dgms"], "hom_deg": c["hom_deg"], "dtype": c.get("dtype", "float64"), "eps": eps,
+                 "route": c.get("route", "eager"), "depth": c.get("depth", 0)}
         ctx.case({"hom_deg": c["hom_deg"], "dgms": c["dgms"], "dtype": c.get("dtype", "float64")}, nontrivial=len(bars) >= 2, sample_every=401)
         ctx.count("dtype:" + c.get("dtype", "float64") + (":b+d_exceeds_dtype" if c.get("wraps") else ""))
         ctx.count("mode:" + c["mode"]); ctx.count("gen_class:" + c["class"]); ctx.count("bars:%d" % min(len(bars), 41))
@@ -795,7 +834,12 @@ def replay(ctx, rep):
     dgms = [[[float(x) for x in b] for b in D] for D in c["dgms"]]
     h = c["hom_deg"]
     dtype = c.get("dtype", "float64")
-    st, out, fired = run_code(dgms, h, float if dtype == "float64" else dtype)
+    route, depth = c.get("route") or "eager", int(c.get("depth") or 0)
+    st, out, fired = run_code(dgms, h, float if dtype == "float64" else dtype, route, depth)
+    if route != "eager":
+        print("route: built with compute=False, then %s, then .critical_pairs" % {
+            "lazy": "compute_landscape()", "lazy_verbose": "compute_landscape(verbose=True)",
+            "lazy_by_depth": "compute_landscape_by_depth(%d) [answer or exception ignored]; compute_landscape()" % depth}[route])
     print("PersLandscapeExact(dgms=%s (dtype %s), hom_deg=%d).critical_pairs ->" % (repr(dgms)[:3000], dtype, h))
     print("  ", repr(out)[:3000], " shortcut fired:", fired)
     if st != "ok":
